@@ -1,6 +1,8 @@
 """Confirm a seeded change and run the registered checks against it.
 
-usage: seed_verify.py SRC_DIR LETTER PROP_ID [--props C01,C03] [--skip-suite]
+usage: seed_verify.py SRC_DIR LETTER PROP_ID [--props C01,C03] [--skip-suite] [--neutral DEMO_LETTERS]
+  --neutral IJ: the patch is a behaviour-preserving rewrite: the demos of the listed letters must PASS with it, the suite keeps its baseline,
+  and the registered checks must stay silent (a VIOLATION would be a false alarm). Recorded with kind=neutral.
   SRC_DIR/_seed/patch<LETTER>.diff, demo<LETTER>.py, notes.md are taken from the seeding agent's worktree.
 Steps (all in a fresh scratch worktree of /repo under /tmp, removed afterwards):
   1. demo passes on the unchanged code; 2. patch applies; 3. demo fails with the patch; 4. pinned suite keeps its baseline with the patch
@@ -29,10 +31,11 @@ def main():
     src, letter, prop = sys.argv[1], sys.argv[2], sys.argv[3]
     props = prop
     skip_suite = "--skip-suite" in sys.argv
+    neutral = sys.argv[sys.argv.index("--neutral") + 1] if "--neutral" in sys.argv else None
     if "--props" in sys.argv:
         props = sys.argv[sys.argv.index("--props") + 1]
     patch = os.path.join(src, "_seed", f"patch{letter}.diff")
-    demo = os.path.join(src, "_seed", f"demo{letter}.py")
+    demo = os.path.join(src, "_seed", f"demo{(neutral or letter)[0]}.py")
     out = os.path.join(VERIF, "seeded", f"{prop}-{letter}")
     os.makedirs(out, exist_ok=True)
     meta = dict(property=prop, id=f"{prop}-{letter}", source="independent sub-agent given only the property text and a scratch worktree")
@@ -53,6 +56,16 @@ def main():
         rc1, o1 = sh(["/venv/bin/python", "_seed/demo.py"], cwd=wt, env=env)
         meta["demo_with_patch_exit"] = rc1
         meta["demo_with_patch_tail"] = o1[-400:]
+        if neutral:
+            meta["kind"] = "neutral"
+            meta["other_demos_with_patch"] = {}
+            for L in neutral[1:]:
+                with open(os.path.join(src, "_seed", f"demo{L}.py")) as f:
+                    dsrc = f.read().replace(os.path.abspath(src).rstrip("/"), wt)
+                with open(os.path.join(wt, "_seed", f"demo{L}.py"), "w") as f:
+                    f.write(dsrc)
+                rcx, ox = sh(["/venv/bin/python", f"_seed/demo{L}.py"], cwd=wt, env=env)
+                meta["other_demos_with_patch"][L] = rcx
         if not skip_suite:
             t0 = time.time()
             rcs, os_ = sh(["/venv/bin/python", "-m", "pytest", "-q", "-p", "no:cacheprovider", "--timeout=900", "-n", "6", "test"], cwd=wt, env=env)
@@ -64,12 +77,17 @@ def main():
             m = re.search(r"(\d+) passed", os_)
             meta["suite_with_patch"] = dict(summary=(os_.strip().splitlines() or [""])[-1], unexpected_failures=sorted(failed - BASE_FAIL), wall_s=round(time.time() - t0))
         meta["confirmed"] = bool(rc0 == 0 and rca == 0 and rc1 != 0 and (skip_suite or not meta["suite_with_patch"]["unexpected_failures"]))
+        if neutral:
+            meta["confirmed"] = bool(rc0 == 0 and rca == 0 and rc1 == 0 and all(v == 0 for v in meta["other_demos_with_patch"].values())
+                                     and (skip_suite or not meta["suite_with_patch"]["unexpected_failures"]))
     finally:
         sh(["git", "-C", "/repo", "worktree", "remove", "--force", wt])
         shutil.rmtree(scratch, ignore_errors=True)
     rc, o = sh([sys.executable, os.path.join(VERIF, "tools", "selftest.py"), "--patch", patch, "--props", props], cwd=VERIF)
     meta["checks"] = [l for l in o.splitlines() if l.split(" ")[0] in ("CAUGHT", "MISSED", "ERROR", "PATCH-FAILED")]
     meta["caught"] = any(l.startswith("CAUGHT") for l in meta["checks"])
+    if neutral:
+        meta["false_alarm"] = meta.pop("caught") or any(l.startswith("ERROR") for l in meta["checks"])
     shutil.copy(patch, os.path.join(out, "patch.diff"))
     shutil.copy(demo, os.path.join(out, "demo.py"))
     notes = os.path.join(src, "_seed", "notes.md")
@@ -79,7 +97,7 @@ def main():
     meta["ran"] = ["demo on unchanged worktree", "git apply patch", "demo with patch", "pinned suite with patch (-n 6; unexpected failures re-run serially)",
                    "tools/selftest.py --patch patch.diff --props " + props]
     json.dump(meta, open(os.path.join(out, "meta.json"), "w"), indent=1)
-    print(json.dumps({k: meta[k] for k in ("id", "confirmed", "caught", "checks", "demo_unchanged_exit", "demo_with_patch_exit")}, indent=0))
+    print(json.dumps({k: meta.get(k) for k in ("id", "confirmed", "caught", "false_alarm", "checks", "demo_unchanged_exit", "demo_with_patch_exit")}, indent=0))
 
 
 if __name__ == "__main__":
